@@ -64,6 +64,7 @@ type FuncCtx struct {
 	curSite    string
 	siteSeq    int
 	siteSyms   map[string]Term
+	uninterp   map[string][]Term
 }
 
 type CutInfo struct {
@@ -81,6 +82,7 @@ type Frame struct {
 	call    ssa.Value // call instruction in the caller awaiting the result
 	visited map[*ssa.BasicBlock]*loopVisit
 	locals  map[string]Value // source-level locals by name (from DebugRef)
+	localBlk map[string]*ssa.BasicBlock // block in which the local's current value was recorded
 	entered bool             // entry handling (phis, cut point) of blk has been done
 	entry   *State           // snapshot at the frame's entry (old() in clauses of inlined functions)
 	prefix  string // obligation-name prefix for inlined frames
@@ -171,6 +173,11 @@ func (fx *FuncCtx) axiom(t Term) {
 	fx.axioms = append(fx.axioms, t)
 }
 
+// axiomAlways records a fact about uninterpreted function applications; it is added to every VC that mentions the function.
+func (fx *FuncCtx) axiomAlways(t Term) {
+	fx.axioms = append(fx.axioms, t)
+}
+
 func (fx *FuncCtx) warn(format string, a ...interface{}) {
 	fx.warnings[fmt.Sprintf(format, a...)] = true
 }
@@ -195,6 +202,10 @@ func (st *State) clone() *State {
 		nf.locals = make(map[string]Value, len(f.locals))
 		for k, v := range f.locals {
 			nf.locals[k] = v
+		}
+		nf.localBlk = make(map[string]*ssa.BasicBlock, len(f.localBlk))
+		for k, v := range f.localBlk {
+			nf.localBlk[k] = v
 		}
 		nf.visited = make(map[*ssa.BasicBlock]*loopVisit, len(f.visited))
 		for k, v := range f.visited {
